@@ -179,6 +179,75 @@ def tonicPeer (header configured : Option Nat) (handler : Option Nat) : Reply :=
 def endToEnd (caller server endpoint : Option Nat) (handler : Option Nat) : Done :=
   clientCall caller endpoint (tonicPeer caller server handler)
 
+/-! ### A caller that polls late
+
+`GrpcTimeout::call` creates the `Sleep` (`timeout_duration.map(tokio::time::sleep)`), and a tokio
+`Sleep` fixes its deadline when it is CREATED: the timer runs from dispatch (time 0 here), whether
+or not anybody polls the response future.  A caller that holds the future (tower `Service` API:
+`poll_ready`, `call`, then something else for a while) and first polls it at time `b` therefore
+finds, in the order `ResponseFuture::poll` looks: the wrapped future's result if it is there by
+`b` (the wrapped future — hyper's `send_request` receiver, a `Sleep` — makes progress without
+being polled), else the elapsed timer, else both pending, and from then on the race goes as for a
+prompt caller. -/
+
+/-- The wrapped future's result is there at time `b`. -/
+def Done.readyBy : Done → Nat → Bool
+  | .inner t, b => decide (t ≤ b)
+  | .timeout t, b => decide (t ≤ b)
+  | .pending, _ => false
+
+/-- A result that was there already, picked up at `b`. -/
+def Done.pickedUpAt : Done → Nat → Done
+  | .inner _, b => .inner b
+  | .timeout _, b => .timeout b
+  | .pending, _ => .pending
+
+/-- `ResponseFuture` created at time 0 with `sleep = T.map(tokio::time::sleep)` around a future
+that resolves as `below`, FIRST polled at time `b` (and whenever woken after that). -/
+def lateCut (T : Option Nat) (below : Done) (b : Nat) : Done :=
+  if below.readyBy b then below.pickedUpAt b          -- `this.inner.poll(cx)` comes first
+  else
+    match T with
+    | none => below
+    | some tt =>
+      if tt ≤ b then .timeout b                        -- the sleep was created at dispatch: elapsed
+      else cutAt T below                               -- both pending: woken at the earlier one
+
+/-- `GrpcTimeout::call` at time 0, the returned future first polled at `b`. -/
+def lateStage (header configured : Option Nat) (below : Done) (b : Nat) : Done :=
+  lateCut (effective header configured) below b
+
+/-- The middleware alone around something that answers after `latency` (or never), the caller
+polling from `b` on. -/
+def latePoll (T : Option Nat) (latency : Option Nat) (b : Nat) : Done :=
+  lateCut T (answer latency) b
+
+/-- A call through the client stack whose response future (`Channel::call`: the buffer's worker
+runs `GrpcTimeout::call` and sends the request at once) is first polled at `b`; once the head is
+in hand the rest of the reply is read with no timer, as in `clientCall`. -/
+def clientCallLate (caller endpoint : Option Nat) (r : Reply) (b : Nat) : Done :=
+  match lateStage caller endpoint r.headDone b with
+  | .inner t =>
+    match r.done with
+    | some l => .inner (max t l)
+    | none => .pending
+  | d => d
+
+/-- tonic on both ends, the caller polling from `b` on (the server's timer does not depend on
+the caller at all). -/
+def endToEndLate (caller server endpoint : Option Nat) (handler : Option Nat) (b : Nat) : Done :=
+  clientCallLate caller endpoint (tonicPeer caller server handler) b
+
+/-- NOT the code: a `ResponseFuture` that creates its `Sleep` the first time the wrapped future
+returns `Pending` (so the deadline counts from the caller's first poll).  Kept to show that the
+spec tells the two apart (`C09_timer_from_first_poll_fails`). -/
+def lateCutLazy (T : Option Nat) (below : Done) (b : Nat) : Done :=
+  if below.readyBy b then below.pickedUpAt b
+  else
+    match T with
+    | none => below
+    | some tt => cutAt (some (b + tt)) below
+
 /-! ### What travels: `Request::set_timeout`, the header map, the builders -/
 
 /-- `status.rs`: `TimeoutExpired` is mapped to `Status::cancelled(timeout.to_string())`, and
